@@ -960,8 +960,24 @@ class Envelope:
         if self.state is None:
             return self.fock.resize(new_dimensions)
 
-        reshape_shape = [-1, -1]
+        if new_dimensions < 1:
+            return False
+
         assert isinstance(self.fock.dimensions, int)
+        if new_dimensions < self.fock.dimensions:
+            # Tracing out can reorder the state, it has to be done before
+            # the state is reshaped
+            to = self.trace_out(self.fock)
+            assert isinstance(to, jnp.ndarray)
+            if to.shape[1] == 1:
+                num_quanta = num_quanta_vector(to)
+            else:
+                num_quanta = num_quanta_matrix(to)
+            if num_quanta >= new_dimensions:
+                # Cannot shrink because amplitudes exist beyond new_dimensions
+                return False
+
+        reshape_shape = [-1, -1]
         assert isinstance(self.fock.index, int)
         assert isinstance(self.polarization.dimensions, int)
         assert isinstance(self.polarization.index, int)
@@ -982,18 +998,13 @@ class Envelope:
                 self.fock.dimensions = new_dimensions
                 return True
             if new_dimensions < self.fock.dimensions:
-                to = self.trace_out(self.fock)
-                assert isinstance(to, jnp.ndarray)
-                num_quanta = num_quanta_vector(to)
-                if num_quanta >= new_dimensions:
-                    # Cannot hrink because amplitues exist beyond new_dimensions
-                    return False
                 slices = [slice(None)] * ps.ndim
                 slices[self.fock.index] = slice(0, new_dimensions)
                 ps = ps[tuple(slices)]
                 self.state = ps.reshape(-1, 1)
                 self.fock.dimensions = new_dimensions
                 return True
+            return True
         if self.expansion_level == ExpansionLevel.Matrix:
             assert isinstance(self.state, jnp.ndarray)
             assert self.state.shape == (self.dimensions, self.dimensions)
@@ -1011,12 +1022,7 @@ class Envelope:
                 ps = ps.transpose([0, 2, 1, 3])
                 self.state = ps.reshape((self.dimensions, self.dimensions))
                 return True
-            if new_dimensions <= self.fock.dimensions:
-                to = self.trace_out(self.fock)
-                assert isinstance(to, jnp.ndarray)
-                num_quanta = num_quanta_matrix(to)
-                if num_quanta >= new_dimensions:
-                    return False
+            if new_dimensions < self.fock.dimensions:
                 slices = [slice(None)] * ps.ndim
                 slices[self.fock.index * 2] = slice(0, new_dimensions)
                 slices[self.fock.index * 2 + 1] = slice(0, new_dimensions)
@@ -1026,6 +1032,7 @@ class Envelope:
                 self.fock.dimensions = new_dimensions
                 self.state = ps.reshape((self.dimensions, self.dimensions))
                 return True
+            return True
         return False  # pragma: no cover
 
     def apply_operation(
